@@ -353,6 +353,7 @@ pub fn run(tier: Tier) -> i32 {
     sweep(&mut run, &fam, &lib, &docs, "cbor_map_family");
     run.transitions += fam.len() as u64 * docs.len() as u64;
   }
+  recursion_part(&mut run, tier);
   encodings_part(&mut run, tier);
   run.evaluations = run.states;
   run.set("documents", json!(docs.len()));
@@ -361,7 +362,7 @@ pub fn run(tier: Tier) -> i32 {
      #0..#7, #7.20/22/23/32, #, undefined, unsigned, integer, integer literals and ranges at the 2^63 / 2^64 boundaries, non-text map keys (1 =>, int =>, bstr =>, uint ^ =>) and \
      tags #6(t) #6.1(t) #6.2(t) #6.99(t); plus the C01 map family and a CBOR map family (every map of 2-3 members over 11 members keyed by uint / int / tstr / bstr / any types, integer literals and cuts). Items are delivered by the crate's own decoder (preferred encoding -> decode_cbor), so decoding is inside the checked path. Items: the JSON universe plus byte strings, simple values incl. undefined, non-finite and width-boundary floats, \
      integers at every head-width boundary up to 2^64-1 / -2^64, tags 0/1/2/3/99, maps with non-text, duplicate and equivalent keys ({} items). Every state is judged by the reference \
-     matcher R and replayed on the real CBORValidator. Part 2: for every item, every encoding with <= 2 deviations from preferred serialization (non-minimal heads, indefinite \
+     matcher R and replayed on the real CBORValidator. Recursion family: 7 self-referential schemas (through a tag, an array, a map value, a choice, as first rule or behind an alias) x every nesting of tag 9 / tag 10 / array / map to depth 3 (4) over 4 leaves, judged by hand-written recursive predicates. Part 2: for every item, every encoding with <= 2 deviations from preferred serialization (non-minimal heads, indefinite \
      lengths, chunked strings, wider floats) is validated through validate_cbor_from_slice against 50 schemas and must get the verdict of the preferred encoding. \
      transition = one (schema, item) pairing / one deviating encoding. non-trivial = states of schemas that accept some and reject some item.",
     docs.len()
@@ -370,6 +371,81 @@ pub fn run(tier: Tier) -> i32 {
     "R encodes my reading of RFC 8610; float16/32/64 and #7.25-27 against floats, tag-based prelude types and #n.m for n < 7 are don't-care".into(),
   ];
   run.finish()
+}
+
+/// recursive rules (through a tag, an array, a map value, a choice): the reference is the obvious recursive predicate,
+/// written by hand per schema; items = every nesting of the constructors to depth 3 over a few leaves
+fn recursion_part(run: &mut Run, tier: Tier) {
+  use crate::cborref::RV;
+  fn int(v: &RV) -> bool {
+    matches!(v, RV::Uint(_) | RV::Nint(_))
+  }
+  fn w_tag(v: &RV) -> bool {
+    int(v) || matches!(v, RV::Tag(9, inner) if w_tag(inner))
+  }
+  fn w_arr(v: &RV) -> bool {
+    int(v) || matches!(v, RV::Array(a) if a.iter().all(w_arr))
+  }
+  fn w_map(v: &RV) -> bool {
+    int(v) || matches!(v, RV::Map(m) if m.len() <= 1 && m.iter().all(|(k, x)| *k == RV::Text("a".into()) && w_map(x)))
+  }
+  fn w_mixed(v: &RV) -> bool {
+    matches!(v, RV::Text(_)) || matches!(v, RV::Tag(9, inner) if matches!(&**inner, RV::Array(a) if a.iter().all(w_mixed)))
+  }
+  let schemas: Vec<(&str, fn(&RV) -> bool)> = vec![
+    ("r = w\nw = #6.9(w) / int\n", w_tag),
+    ("w = #6.9(w) / int\n", w_tag),
+    ("r = w\nw = int / #6.9(w)\n", w_tag),
+    ("r = [* r] / int\n", w_arr),
+    ("r = int / [* r]\n", w_arr),
+    ("r = {? a: r} / int\n", w_map),
+    ("r = tstr / #6.9([* r])\n", w_mixed),
+  ];
+  // items: closure of the leaves under the constructors, depth <= 3
+  let leaves = vec![RV::Uint(1), RV::Nint(0), RV::Text("x".into()), RV::Simple(22)];
+  let mut level: Vec<RV> = leaves.clone();
+  let mut items: Vec<RV> = leaves;
+  for _ in 0..tier.pick(3, 4) {
+    let mut next = vec![];
+    for v in &level {
+      next.push(RV::Tag(9, Box::new(v.clone())));
+      next.push(RV::Tag(10, Box::new(v.clone())));
+      next.push(RV::Array(vec![v.clone()]));
+      next.push(RV::Array(vec![RV::Uint(1), v.clone()]));
+      next.push(RV::Map(vec![(RV::Text("a".into()), v.clone())]));
+    }
+    next.push(RV::Array(vec![]));
+    next.push(RV::Map(vec![]));
+    next.dedup();
+    items.extend(next.iter().cloned());
+    level = next;
+  }
+  let vals = crate::verdicts::decoded_items(&items);
+  for (schema, pred) in schemas {
+    let got = match crate::verdicts::cbor_many_values(schema, &vals) {
+      Ok(g) => g,
+      Err(e) => {
+        run.viol(Viol { kind: "cbor-verdict".into(), case: json!({"schema": schema}), observed: format!("schema rejected: {e}"), expected: "accepted".into(), finding: None });
+        continue;
+      }
+    };
+    for (v, o) in items.iter().zip(got.iter()) {
+      run.states += 1;
+      run.transitions += 1;
+      run.nontrivial += 1;
+      let want = pred(v);
+      if o.accepted() != Some(want) {
+        run.viol(Viol {
+          kind: "cbor-verdict".into(),
+          case: json!({"schema": schema, "cbor": hex(&crate::cborref::preferred(v)), "diag": crate::cborref::rv_to_diag(v), "family": "recursion"}),
+          observed: o.short(),
+          expected: if want { "Acc" } else { "Rej" }.into(),
+          finding: None,
+        });
+      }
+    }
+  }
+  run.set("recursion_family", json!({"schemas": 7, "items": items.len()}));
 }
 
 pub fn replay(case: &serde_json::Value, kind: &str) -> Option<Viol> {
